@@ -106,6 +106,12 @@ impl<PacketIdType: IsPacketId> GenericStore<PacketIdType> {
         }
     }
 
+    /// Stored packets in insertion order, borrowed (verification hook, read-only).
+    #[cfg(feature = "verif-hooks")]
+    pub fn verif_iter(&self) -> impl Iterator<Item = &GenericStorePacket<PacketIdType>> {
+        self.map.values()
+    }
+
     /// Return a vector of all stored packets in insertion order.
     pub fn get_stored(&self) -> Vec<GenericStorePacket<PacketIdType>> {
         self.map.values().cloned().collect()
